@@ -97,7 +97,11 @@ pub fn run_cmd(bytes: &Arc<Vec<u8>>, cmd: &Cmd, fault: Option<&Fault>, bufreader
         let a = PathBuf::from(ARCHIVE);
         let o = |f: bool| if f { Some(PathBuf::from(OUT)) } else { None };
         let r = match cmd2 {
-            Cmd::Getset { samples, prefix, to_file } => cli::getset(a, samples, prefix, o(to_file), 0),
+            Cmd::Getset { samples, prefix, to_file } => {
+                // -v of getset (diagnostics on stderr only): derived from the request
+                let v = (samples.len() + prefix.as_ref().map(|p| p.len()).unwrap_or(0)) as u32 % 3;
+                cli::getset(a, samples, prefix, o(to_file), v)
+            }
             Cmd::Listset { to_file } => cli::listset(a, o(to_file)),
             Cmd::Listctg { samples, to_file } => cli::listctg(a, samples, o(to_file)),
             Cmd::Ctglen { sample, contig } => cli::ctglen(a, sample, contig),
